@@ -510,6 +510,34 @@ def rule_source_and_ids(ctx: Ctx, out: Collector) -> None:
         for r, asked in got:
             if r.startswith('raises') or any(a != 'Base' for a in asked) or (r != str(TOP) and 'user/base' not in r):
                 problems.append(f'{depth} level(s) of build_node: {r}' + (f', source asked of {list(asked)}' if asked else ''))
+    # a hand-written subclass of a build_node class (inherits __generic_class__) links to itself; a class without source does not
+    # make the generation fail
+    def run_special(oracle: Oracle, which: str):
+        asked = []
+
+        def src(a, k):
+            asked.append(a[0])
+            if which == 'no-source' or (isinstance(a[0], AObj) and a[0].attrs.get('__made_by_type__')):
+                raise ARaise('OSError (no source)')
+            return (TOP, 10)
+        base = AObj(('ext', 'created-class'), {'__module__': 'user.base', '__name__': 'Base', '__generic_class__': None}, tag='Base')
+        generic = AObj(('ext', 'created-class'), {'__module__': 'ml_pipeline_engine.node.node', '__name__': 'G', '__generic_class__': base,
+                                                  '__made_by_type__': True}, tag='G')
+        own = AObj(('ext', 'created-class'), {'__module__': 'user.own', '__name__': 'Own', '__bases__': (generic,)}, tag='Own')
+        node = own if which == 'subclass' else base
+        interp = Interp(p, oracle, ext_stubs={'inspect.getsourcelines': src, 'inspect.findsource': src,
+                                              'inspect.getsourcefile': lambda a, k: (asked.append(a[0]), 'x.py')[1]})
+        res = interp.call_unit(target, [node], {}, None if target.is_static else AObj(ci, {}))
+        return res, [getattr(a, 'tag', repr(a)) for a in asked]
+    for which, label in (('subclass', 'a hand-written subclass of a build_node class'), ('no-source', 'a class without retrievable source')):
+        outs = enumerate_outcomes(lambda oracle, which=which: run_special(oracle, which))
+        got = sorted({(str(o[1][0]), tuple(o[1][1])) if o[0] == 'value' else ('raises ' + str(o[1]), ()) for o in outs})
+        table[label] = [f'{r} (source of {list(a)})' for r, a in got]
+        for r, asked in got:
+            if r.startswith('raises'):
+                problems.append(f'{label}: {r}')
+            elif which == 'subclass' and (any(a != 'Own' for a in asked) or (r != str(TOP) and 'user/own' not in r)):
+                problems.append(f'{label}: linked to {r}, source asked of {list(asked)} (must be its own class)')
     cons = f'{target.module.name}::{target.qualname}::the source link follows the chain of generic classes to the class that has a source [generic-chain]'
     if not problems:
         out.ok('VW-7', cons, p.loc(target, target.node), '0..3 levels of build_node', table=table)
